@@ -101,7 +101,7 @@ _HSEQ = [0]
 def _pre_expr(params):
     parts = []
     for name, kind, lo, hi in params:
-        if kind == "int":
+        if kind in ("int", "sel"):
             if lo is not None and hi is not None:
                 parts.append("%d <= %s <= %d" % (lo, name, hi))
             elif lo is not None:
@@ -116,7 +116,7 @@ def _pre_expr(params):
 
 def make_harness(mod, desc, kf_active, twin=False):
     params = mod.params(desc)
-    tmap = {"int": "int", "bool": "bool", "str": "str", "float": "float"}
+    tmap = {"int": "int", "sel": "int", "bool": "bool", "str": "str", "float": "float"}
     sig = ", ".join("%s: %s" % (n, tmap[k]) for n, k, _, _ in params)
     dct = ", ".join("%r: %s" % (n, n) for n, _, _, _ in params)
     extra_pre = getattr(mod, "extra_pre", None)
@@ -134,11 +134,24 @@ def make_harness(mod, desc, kf_active, twin=False):
         "    return _run({%s})\n"
     ) % (sig, pre, dct)
     bool_names = [n for n, k, _, _ in params if k == "bool"]
+    sel_names = [(n, lo, hi) for n, k, lo, hi in params if k == "sel"]
 
     def _run(x):
         _STATE["paths"] += 1
         for b in bool_names:  # native bools: C APIs reject symbolic flags
             x[b] = True if x[b] else False
+        # small bounded selectors are made concrete by bisection on solver-decided
+        # comparisons (a plain realize() of a precondition-bounded int makes
+        # CrossHair "prematurely realize" it to out-of-range model values)
+        for b, lo, hi in sel_names:
+            v = x[b]
+            while lo < hi:
+                mid = (lo + hi) // 2
+                if v <= mid:
+                    hi = mid
+                else:
+                    lo = mid + 1
+            x[b] = lo
         ctx = Ctx(native=False, kf_active=kf_active, twin=twin)
         try:
             clause = mod.body(ctx, desc, x)
@@ -191,6 +204,27 @@ def _install_z3_counter():
     z3.Solver._vp_wrapped = True
 
 
+def _tune_crosshair():
+    """Disable CrossHair's optional short-circuiting of contracted callees
+    (its patched repr/hash carry contracts): it replaces the call by an
+    unconstrained symbolic result on a random subset of paths, which leaves
+    those paths UNKNOWN and the path tree never exhausts.  Semantics are
+    unchanged: the callee is simply always executed."""
+    import crosshair.core as cc
+
+    if getattr(cc, "_vp_no_shortcircuit", False):
+        return
+    orig = cc.consider_shortcircuit
+
+    def consider_shortcircuit(fn, sig, bound, subconditions, allow_interpretation):
+        if allow_interpretation:
+            return None
+        return orig(fn, sig, bound, subconditions, allow_interpretation)
+
+    cc.consider_shortcircuit = consider_shortcircuit
+    cc._vp_no_shortcircuit = True
+
+
 def _reset_state():
     _STATE.update(paths=0, nontrivial=0, last_fail=None, known_hits={}, z3_checks=0, z3_time=0.0)
 
@@ -235,6 +269,7 @@ def run_shard(args):
         if hasattr(mod, "setup_symbolic"):
             mod.setup_symbolic(desc)
         _install_z3_counter()
+        _tune_crosshair()
         _reset_state()
         fn, params = make_harness(mod, desc, kf_active)
         msgs = _analyze(fn, cond_timeout, path_timeout)
@@ -316,7 +351,7 @@ def default_concrete_inputs(mod, desc, seed):
     for mode in ("lo", "hi", "rnd", "rnd", "rnd", "rnd"):
         x = {}
         for name, kind, lo, hi in params:
-            if kind == "int":
+            if kind in ("int", "sel"):
                 l = lo if lo is not None else -3
                 h = hi if hi is not None else (l + 6)
                 x[name] = l if mode == "lo" else h if mode == "hi" else rnd.randint(l, h)
@@ -417,8 +452,10 @@ def run_property(prop, tier="quick", seed=0, only=None, jobs=None, verbose=False
     for r in results:
         if r["verdict"] == "INCONCLUSIVE":
             inconclusive.append((r["name"], r.get("reason", "")))
-        if r.get("twin") == "VACUOUS":
+        if r.get("twin") == "VACUOUS" and getattr(mod, "TWIN_REQUIRED", True):
             harness_errors.append((r["name"], "reachability twin CONFIRMED: harness is vacuous"))
+    if not getattr(mod, "TWIN_REQUIRED", True) and results and not any(r.get("twin") == "REACHED" for r in results):
+        harness_errors.append(("*", "no shard reached a non-trivial path"))
 
     # --- evidence
     confirmed = [r for r in results if r["verdict"] == "CONFIRMED"]
